@@ -224,7 +224,7 @@ def execute(case):
 
 ERR = {"join": [14, 15, 16, 25, 27], "sync": [15, 16, 22, 25, 27], "heartbeat": [15, 16, 22, 25, 27],
        "offset_commit": [14, 15, 16, 7, 22, 25, 27], "offset_fetch": [14, 16], "find_coordinator": [15],
-       "fetch": [6, 3], "metadata": [5]}
+       "fetch": [6, 3, 78, 9], "metadata": [5]}     # 78 OFFSET_NOT_AVAILABLE, 9 REPLICA_NOT_AVAILABLE: retriable
 
 
 def strategy(focus="membership"):
@@ -264,6 +264,7 @@ def strategy(focus="membership"):
                 spec["revoke_delay"] = 0.7
             if draw(st.integers(0, 5)) == 0:
                 spec["topics"] = "t.*"
+            spec["loop_poll"] = draw(st.sampled_from(["getmany", "getmany", "getone"]))
             for _ in range(draw(st.integers(0, 8))):
                 r = draw(st.integers(0, 9))
                 if r <= 4:
